@@ -174,6 +174,9 @@ func Intersection(limit int, sets ...*Set) (*Set, bool) {
 	switch len(sets) {
 	case 1:
 		// Return a copy so that the result never aliases the operand.
+		if members := sets[0].GetAll(); limit > 0 && len(members) > limit {
+			return NewSet(members[:limit]), true
+		}
 		return NewSet(sets[0].GetAll()), false
 	case 2:
 		intersection := NewSet([]string{})
@@ -189,14 +192,10 @@ func Intersection(limit int, sets ...*Set) (*Set, bool) {
 		}
 		return intersection, limitReached
 	default:
-		left, stop := Intersection(limit, sets[0:len(sets)/2]...)
-		if stop { // Check if limit is reached by left, if it is, return left
-			return left, stop
-		}
-		right, stop := Intersection(limit, sets[len(sets)/2:]...)
-		if stop { // Check if limit is reached by right, if it is, return right
-			return right, stop
-		}
+		// The limit only applies to the final result: a partial intersection that
+		// reached it may still lose members to the other half.
+		left, _ := Intersection(0, sets[0:len(sets)/2]...)
+		right, _ := Intersection(0, sets[len(sets)/2:]...)
 		return Intersection(limit, left, right)
 	}
 }
